@@ -14,7 +14,7 @@ import vp
 
 W = {"i8": (-2**7, 2**7 - 1), "i16": (-2**15, 2**15 - 1), "i32": (-2**31, 2**31 - 1), "i64": (-2**63, 2**63 - 1), "i128": (-2**127, 2**127 - 1),
      "u8": (0, 2**8 - 1), "u16": (0, 2**16 - 1), "u32": (0, 2**32 - 1), "u64": (0, 2**64 - 1), "u128": (0, 2**128 - 1)}
-TEXT = {"s1": "a<é", "s0": "", "c1": "a", "c2": "é"}
+TEXT = {"s1": "a<é", "s0": "", "c1": "a", "c2": "é", "s2": "\u0417\u0434\u0440\u0430\u0432\u0441\u0442\u0432\u0443\u0439\u0442\u0435"}
 
 
 def conc(v):
